@@ -21,7 +21,6 @@ def skip_region(syn, feats, skipped):
     elif syn == "oer" and "wide_int_fixed_oer" in feats: fid = "F36"
     elif syn == "uper" and "named_plain_numeric" in feats: fid = "F46"
     elif syn == "uper" and "choice_alias" in feats: fid = "F38"
-    elif syn == "uper" and "semi_nonzero_lb" in feats: fid = "F42"
     elif syn == "xer" and "REAL" in feats: fid = "F40"
     if fid: skipped[fid] += 1
     return fid is not None
@@ -60,7 +59,9 @@ def run(ctx):
     f30 = 0
     built = 0
     bm, bvals = genmod.boundary_module(ctx.rng, ctx.quick)
-    for m in [bm] + mods:
+    xm, xvals = genmod.ext64_module(ctx.rng)       # extension indexes / bitmap lengths from 64 on (F29 / F64 repaired)
+    fixedvals = {id(bm): bvals, id(xm): xvals}
+    for m in [bm, xm] + mods:
         txt = genmod.module_text(m)
         env = dict(m["types"])
         b = bundle.Bundle(m["name"], txt, [n for n, _ in m["types"]])
@@ -77,7 +78,7 @@ def run(ctx):
         vg = genmod.ValGen(ctx.rng, env)
         lines = []; meta = []
         for n, t in m["types"]:
-            for v in (bvals[n] if m is bm else vg.values(t, nvals)):
+            for v in (fixedvals[id(m)][n] if id(m) in fixedvals else vg.values(t, nvals)):
                 sx = genmod.val_sexp(t, v, env)
                 lines.append(f"@{n} echo " + sx); meta.append(("echo", n, sx))
                 feats = gfind.features(t, env)
